@@ -1,0 +1,126 @@
+//go:build verif
+
+// Machine-checked contracts for this package (comment-only; compiled only with -tags verif,
+// and even then contributes no code).  Read by /verif/govc; see /verif/DESIGN.md.
+
+package storage
+
+//@ -- ---------------------------------------------------------------- C32: the bucket ring
+//@ -- Ring consistency: every slot holds a bucket; the bucket d slots behind the head covers the interval-long
+//@ -- window that ends d intervals before the head bucket's end.  Hence the windows are disjoint, contiguous and
+//@ -- each timestamp of the retained history lies in exactly one bucket.
+//@ spec macro brBack(r *BucketRing, i int) int = (r.headIndex - i + len(r.buckets)) % len(r.buckets)
+//@ spec macro brOK(r *BucketRing) bool = r != nil && len(r.buckets) >= 1 && len(r.buckets) <= 1000000 && r.interval >= 1 && r.interval <= 1000000 && 0 <= r.headIndex && r.headIndex < len(r.buckets)
+//@      && (forall i int :: 0 <= i && i < len(r.buckets) ==> r.buckets[i] != nil
+//@            && r.buckets[i].EndTime == r.buckets[r.headIndex].EndTime - brBack(r, i) * r.interval
+//@            && r.buckets[i].StartTime == r.buckets[i].EndTime - r.interval)
+//@      && -1000000000000000 <= r.buckets[r.headIndex].EndTime && r.buckets[r.headIndex].EndTime <= 1000000000000000
+
+//@ func (*BucketRing).indexAdd
+//@   property C32
+//@   option mathint
+//@   requires r != nil && len(r.buckets) >= 1 && 0 <= idx && idx < len(r.buckets) && 0 <= n && n <= len(r.buckets)
+//@   ensures 0 <= res && res < len(r.buckets) && res == (idx + n) % len(r.buckets)
+//@   assigns nothing
+//@ func (*BucketRing).indexSubtract
+//@   property C32
+//@   option mathint
+//@   requires r != nil && len(r.buckets) >= 1 && 0 <= idx && idx < len(r.buckets) && 0 <= n && n <= len(r.buckets)
+//@   ensures 0 <= res && res < len(r.buckets) && res == (idx - n + len(r.buckets)) % len(r.buckets)
+//@   assigns nothing
+//@ func (*BucketRing).nextBucketIndex
+//@   property C32
+//@   option mathint
+//@   requires r != nil && len(r.buckets) >= 1 && 0 <= idx && idx < len(r.buckets)
+//@   ensures 0 <= res && res < len(r.buckets) && res == (idx + 1) % len(r.buckets)
+//@   assigns nothing
+//@ func (*BucketRing).nowIndex
+//@   property C32
+//@   option mathint
+//@   requires brOK(r)
+//@   ensures 0 <= res && res < len(r.buckets) && res == (r.headIndex - 1 + len(r.buckets)) % len(r.buckets)
+//@   assigns nothing
+
+//@ -- the retained history is [end of head - n*interval, end of head)
+//@ func (*BucketRing).EndOfHistory
+//@   property C32
+//@   option mathint
+//@   requires brOK(r)
+//@   ensures res == r.buckets[r.headIndex].EndTime
+//@   assigns nothing
+//@ func (*BucketRing).BeginningOfHistory
+//@   property C32
+//@   option mathint
+//@   requires brOK(r)
+//@   ensures res == r.buckets[r.headIndex].EndTime - len(r.buckets) * r.interval
+//@   assigns nothing
+
+//@ -- findBucket(t): for a timestamp inside the retained history, THE bucket whose window contains t (and its
+//@ -- index); otherwise nothing
+//@ func (*BucketRing).findBucket
+//@   property C32
+//@   option mathint
+//@   requires brOK(r) && -1000000000000000 <= t && t <= 1000000000000000
+//@   ensures (res1 != nil) == (r.buckets[r.headIndex].EndTime - len(r.buckets) * r.interval <= t && t < r.buckets[r.headIndex].EndTime)
+//@   ensures res1 != nil ==> 0 <= res0 && res0 < len(r.buckets) && res1 == r.buckets[res0] && res1.StartTime <= t && t < res1.EndTime
+//@   ensures res1 == nil ==> res0 == -1
+//@   assigns nothing
+//@   loop 1 invariant 0 <= i && i < len(r.buckets)
+
+//@ -- target strictly inside the (possibly wrapping) index range (start, end)
+//@ func (*BucketRing).indexBetween
+//@   property C32
+//@   option mathint
+//@   ensures res == (start != end && (start < end ? (target > start && target < end) : (target > start || target < end)))
+//@   assigns nothing
+
+//@ -- Assumed of the collaborators (trusted): they leave the ring's geometry alone - which slot is the head, the
+//@ -- interval, which bucket sits in which slot and every bucket's window.
+//@ spec macro brSameGeometry(r *BucketRing) bool = r.headIndex == old(r.headIndex) && r.interval == old(r.interval) && r.buckets == old(r.buckets)
+//@      && (forall i int :: 0 <= i && i < len(r.buckets) ==> r.buckets[i] == old(r.buckets[i]) && r.buckets[i].StartTime == old(r.buckets[i].StartTime) && r.buckets[i].EndTime == old(r.buckets[i].EndTime))
+//@ func (*BucketRing).flushToStreams
+//@   trusted
+//@   ensures brSameGeometry(r)
+//@ func NewDiachronicFlow
+//@   property C32
+//@   requires k != nil
+//@   ensures res != nil && fresh(res)
+//@   assigns nothing
+//@ func (Index).Add
+//@   trusted
+//@   assigns nothing
+//@ -- Reset gives the bucket its new window
+//@ func (*AggregationBucket).Reset
+//@   property C32
+//@   option safety off
+//@   option stable (*AggregationBucket).StartTime, (*AggregationBucket).EndTime
+//@   requires b != nil
+//@   ensures b.StartTime == start && b.EndTime == end
+//@ ghost c32B *AggregationBucket
+//@ ghost c32S int64
+//@ ghost c32E int64
+//@ ghost c32H int
+
+//@ -- AddFlow counts a flow in exactly the bucket whose window contains the flow's start time, and files it in its
+//@ -- DiachronicFlow under that same window; a flow outside the retained history is counted nowhere.
+//@ func (*BucketRing).AddFlow
+//@   property C32
+//@   option safety off
+//@   option mathint
+//@   option frozen flow
+//@   option stable (*AggregationBucket).StartTime, (*AggregationBucket).EndTime, (*BucketRing).headIndex, (*BucketRing).interval, (*BucketRing).buckets, []*AggregationBucket
+//@   requires brOK(r) && flow != nil && flow.Key != nil && -1000000000000000 <= flow.StartTime && flow.StartTime <= 1000000000000000
+//@   ghost at call findBucket: c32B = res1 ; c32S = (res1 == nil ? 0 : res1.StartTime) ; c32E = (res1 == nil ? 0 : res1.EndTime) ; check t == flow.StartTime
+//@   ghost at call AggregationBucket).AddFlow: check arg0 == c32B ; check arg0 != nil ; check c32S <= flow.StartTime && flow.StartTime < c32E ; check arg1 == flow
+//@   ghost at call DiachronicFlow).AddFlow: check arg1 == flow ; check arg2 == c32S ; check arg3 == c32E
+
+//@ -- Rollover advances the head by one slot and re-uses the oldest bucket for the window that starts where the
+//@ -- old head's window ended
+//@ func (*BucketRing).Rollover
+//@   property C32
+//@   option safety off
+//@   option mathint
+//@   option stable (*AggregationBucket).StartTime, (*AggregationBucket).EndTime, (*BucketRing).headIndex, (*BucketRing).interval, (*BucketRing).buckets, []*AggregationBucket
+//@   requires brOK(r)
+//@   ghost at call flushToStreams: c32H = r.headIndex ; c32S = r.buckets[r.headIndex].EndTime ; c32B = r.buckets[(r.headIndex + 1) % len(r.buckets)]
+//@   ghost at call AggregationBucket).Reset: check b == c32B ; check start == c32S && end == start + old(r.interval) ; check old(r.headIndex) == (c32H + 1) % old(len(r.buckets))
